@@ -58,6 +58,8 @@ def run_check(pid, tier, seed, cases=None, jobs=None, budget=None, quiet=False):
               'samples': [], 'counters': collections.Counter(), 'inconclusive': [], 'fatal': [], 'init': None,
               'crashes': []}
     vios = []
+    if getattr(prop, 'NEED_DEPS', False):
+        env.ensure_deps()              # once, before the shards start (each shard checks again and reports inconclusive if it is missing)
     try:
         procs = {}
         for s in range(nshards):
